@@ -602,8 +602,10 @@ func runPoolCase(ctx *Ctx, maxWorkers, idle int, script []string) {
 	// future must have started (C13) …
 	if !c.failed {
 		maxT := 0
-		for _, t := range c.fireT {
-			if t > maxT {
+		for id, t := range c.fireT {
+			// (only what is still to fire: time is not pushed past the fire time of a CANCELLED future — a watcher
+			// still sleeping towards it has to be gone by idleness, not by that time coming)
+			if t > maxT && !c.cancelled[id] {
 				maxT = t
 			}
 		}
@@ -772,6 +774,19 @@ func runPool(ctx *Ctx) {
 			if r.Chance(1, 2) {
 				script = append(script, "fire 0", "tick 12", "fire 0")
 			}
+		}
+		if r.Chance(1, 10) {
+			// directed: the ONLY pending future is far away (the single watcher sleeps uncapped towards it) and gets
+			// cancelled: with nothing pending the pool must wind down within idle rounds, not when that time comes
+			script = nil
+			if r.Chance(1, 2) {
+				script = append(script, "add 1", "tick 2", "fire 0")
+			}
+			script = append(script, fmt.Sprintf("add %d", 50*idle+7))
+			if r.Chance(1, 3) {
+				script = append(script, "tick 3")
+			}
+			script = append(script, fmt.Sprintf("cancel %d", len(script)/3))
 		}
 		if r.Chance(1, 8) {
 			// directed: the LAST watcher stands before a lock on its way out (idle rounds used up) when a Call
